@@ -938,3 +938,99 @@ Section ComposeMixed.
       intros f a. symmetry. apply C3.
   Qed.
 End ComposeMixed.
+
+(* ================================================================================================================ *)
+(* Frame: evaluation ignores the fluent symbols that do not occur (the list version of                              *)
+(* Proofs/LayerA_DcrGoal_proofs.eval_cleanf = C06_LA_dcrgoal_eval_frame, same proof)                                *)
+(* ================================================================================================================ *)
+Ltac bsplit := repeat match goal with H : _ && _ = true |- _ => apply andb_true_iff in H; destruct H end.
+
+(* two interpretations that differ at most in the values of the fluent symbols of [fs] *)
+Definition irel_fs (fs : list N) (I I' : interp) : Prop :=
+  (forall p, par I' p = par I p) /\ (forall v, var I' v = var I v) /\ (forall f a, ifun I' f a = ifun I f a) /\
+  (forall t, objs I' t = objs I t) /\ (forall g a, memN g fs = false -> fl I' g a = fl I g a).
+
+Section FrameFs.
+  Variable fs : list N.
+
+  Lemma irel_fs_bind I I' v o : irel_fs fs I I' -> irel_fs fs (bind_var I v o) (bind_var I' v o).
+  Proof. intros (H1 & H2 & H3 & H4 & H5). repeat split; simpl; auto. intros w. destruct (w =? v)%N; auto. Qed.
+
+  Lemma irel_fs_instances vs : forall I I', irel_fs fs I I' -> Forall2 (irel_fs fs) (instances I vs) (instances I' vs).
+  Proof.
+    induction vs as [|[v t] vs IH]; intros I I' H; simpl.
+    - constructor; [exact H | constructor].
+    - assert (HH := H). destruct H as (H1 & H2 & H3 & H4 & H5). rewrite H4.
+      induction (objs I t) as [|o os IHo]; simpl; [constructor|].
+      apply Forall2_app; [apply IH, irel_fs_bind, HH | exact IHo].
+  Qed.
+
+  Lemma Forall2_map_eq_fg' {A B} (R : A -> A -> Prop) (f g : A -> B) l l' :
+    Forall2 R l l' -> (forall x y, R x y -> f x = g y) -> map f l = map g l'.
+  Proof. induction 1; intros H'; simpl; [reflexivity|]. f_equal; auto. Qed.
+
+  Lemma eval_no_sym sc e : forall I I', irel_fs fs I I' -> no_sym fs e = true -> eval sc e I' = eval sc e I.
+  Proof.
+    induction e using expr_ind'; intros I I' HR Hc; pose proof HR as (Hp & Hv & Hi & Ho & Hf);
+      try reflexivity; cbn [no_sym] in Hc; bsplit;
+      try (assert (HF : Forall (fun x => eval sc x I' = eval sc x I) l)
+             by (rewrite Forall_forall in *; intros x Hx; apply H; [exact Hx | exact HR |];
+                 match goal with Hq : forallb _ _ = true |- _ => rewrite forallb_forall in Hq; apply Hq; exact Hx end));
+      try (assert (HF : Forall (fun x => eval sc x I' = eval sc x I) args)
+             by (rewrite Forall_forall in *; intros x Hx; apply H; [exact Hx | exact HR |];
+                 match goal with Hq : forallb _ _ = true |- _ => rewrite forallb_forall in Hq; apply Hq; exact Hx end)).
+    - cbn [eval]. apply Hp.
+    - cbn [eval]. apply Hv.
+    - rewrite !eval_EFluent.
+      replace (evals sc I' args) with (evals sc I args)
+        by (clear -HF; induction HF as [|x l' Hx _ IH']; [reflexivity|]; cbn [evals]; rewrite Hx, IH'; reflexivity).
+      destruct (evals sc I args); [|reflexivity]. apply Hf.
+      match goal with Hn : negb (memN _ fs) = true |- _ => apply negb_true_iff in Hn; exact Hn end.
+    - rewrite !eval_EIFun.
+      replace (evals sc I' args) with (evals sc I args)
+        by (clear -HF; induction HF as [|x l' Hx _ IH']; [reflexivity|]; cbn [evals]; rewrite Hx, IH'; reflexivity).
+      destruct (evals sc I args); [|reflexivity]. apply Hi.
+    - rewrite !eval_EAnd.
+      replace (ebools sc I' l) with (ebools sc I l)
+        by (clear -HF; induction HF as [|x l' Hx _ IH']; [reflexivity|]; cbn [ebools]; rewrite Hx, IH'; reflexivity).
+      reflexivity.
+    - rewrite !eval_EOr.
+      replace (ebools sc I' l) with (ebools sc I l)
+        by (clear -HF; induction HF as [|x l' Hx _ IH']; [reflexivity|]; cbn [ebools]; rewrite Hx, IH'; reflexivity).
+      reflexivity.
+    - rewrite !eval_ENot, (IHe I I' HR) by assumption. reflexivity.
+    - rewrite !eval_EImplies, (IHe1 I I' HR), (IHe2 I I' HR) by assumption. reflexivity.
+    - rewrite !eval_EIff, (IHe1 I I' HR), (IHe2 I I' HR) by assumption. reflexivity.
+    - rewrite !eval_EExists. f_equal.
+      rewrite (Forall2_map_eq_fg' (irel_fs fs) (fun J => as_bool (eval sc e J)) (fun J => as_bool (eval sc e J))
+                 _ _ (irel_fs_instances vs I I' HR)); [reflexivity|].
+      intros x y Hxy. rewrite (IHe x y Hxy) by assumption. reflexivity.
+    - rewrite !eval_EForall. f_equal.
+      rewrite (Forall2_map_eq_fg' (irel_fs fs) (fun J => as_bool (eval sc e J)) (fun J => as_bool (eval sc e J))
+                 _ _ (irel_fs_instances vs I I' HR)); [reflexivity|].
+      intros x y Hxy. rewrite (IHe x y Hxy) by assumption. reflexivity.
+    - rewrite !eval_EPlus.
+      replace (enums sc I' l) with (enums sc I l)
+        by (clear -HF; induction HF as [|x l' Hx _ IH']; [reflexivity|]; cbn [enums]; rewrite Hx, IH'; reflexivity).
+      reflexivity.
+    - rewrite !eval_EMinus, (IHe1 I I' HR), (IHe2 I I' HR) by assumption. reflexivity.
+    - rewrite !eval_ETimes.
+      replace (enums sc I' l) with (enums sc I l)
+        by (clear -HF; induction HF as [|x l' Hx _ IH']; [reflexivity|]; cbn [enums]; rewrite Hx, IH'; reflexivity).
+      reflexivity.
+    - rewrite !eval_EDiv, (IHe1 I I' HR), (IHe2 I I' HR) by assumption. reflexivity.
+    - rewrite !eval_ELe, (IHe1 I I' HR), (IHe2 I I' HR) by assumption. reflexivity.
+    - rewrite !eval_ELt, (IHe1 I I' HR), (IHe2 I I' HR) by assumption. reflexivity.
+    - rewrite !eval_EEquals, (IHe1 I I' HR), (IHe2 I I' HR) by assumption. reflexivity.
+  Qed.
+End FrameFs.
+
+Lemma eval_ignores_unmentioned sc fs e (I J : interp) :
+  no_sym fs e = true ->
+  par J = par I -> var J = var I -> ifun J = ifun I -> objs J = objs I ->
+  (forall f a, memN f fs = false -> fl J f a = fl I f a) ->
+  eval sc e J = eval sc e I.
+Proof.
+  intros N Hp Hv Hi Ho Hf. apply (eval_no_sym fs sc e I J); [|exact N].
+  repeat split; intros; [rewrite Hp | rewrite Hv | rewrite Hi | rewrite Ho | apply Hf; assumption]; reflexivity.
+Qed.
